@@ -180,7 +180,7 @@ CORPUS = [
 def run(ctx, model_ok):
     rng = ctx.rng
     n = 40 if ctx.tier == "quick" else 800
-    cases = [dict(rp) for rp in getattr(ctx, "known_replays", [])] + [dict(c) for c in CORPUS]
+    cases = [dict(rp) for rp in getattr(ctx, "known_replays", []) + getattr(ctx, "fixed_replays", [])] + [dict(c) for c in CORPUS]
     # every AST event alone against ALL events, on hand-written feature programs (statement expansion, docstring look-alikes,
     # chains, loops, brackets ...): interactions between one event's sites and any other event's show up here
     import battery
